@@ -4,6 +4,7 @@
 #include "runner.hpp"
 #include "lib.hpp"
 #include <boost/iterator/function_output_iterator.hpp>
+#include <tbb/global_control.h>
 
 using namespace vf;
 
@@ -328,6 +329,7 @@ static Verdict check_c15_t(const Case &c) {
 static Verdict check_c15(const Case &c) { return c.wtype == "int" ? check_c15_t<int>(c) : check_c15_t<double>(c); }
 
 int main(int argc, char **argv) {
+    tbb::global_control gc(tbb::global_control::max_allowed_parallelism, 3);   // the *_tbb entry points: bounded, shards run side by side
     if (getenv("VERIF_MAXN")) g_maxN = atoi(getenv("VERIF_MAXN"));
     if (getenv("VERIF_MAXM")) g_maxM = atoi(getenv("VERIF_MAXM"));
     std::map<std::string, Prop> props;
